@@ -111,15 +111,30 @@ Proof.
   induction 1 as [|x l Hx _ IH]; cbn [filter]; [reflexivity|]. rewrite Hx. exact IH.
 Qed.
 
+Lemma tun_step_silent tbl mtu i p pkts :
+  Forall (fun p => route tbl p = None) pkts -> tun_step tbl mtu i p pkts = (p, []).
+Proof.
+  intros H. unfold tun_step. rewrite filter_none; [reflexivity|].
+  eapply Forall_impl; [|exact H]. cbv beta. intros a Ha. rewrite Ha. reflexivity.
+Qed.
+
 Lemma step_peers_silent tbl mtu pkts :
   Forall (fun p => route tbl p = None) pkts ->
   forall up ps i, step_peers tbl mtu up (TunBatch pkts) i ps = (ps, []).
 Proof.
   intros H up. induction ps as [|p t IH]; intros i; cbn [step_peers]; [reflexivity|].
   cbn [peer_step]. destruct up; cbn [negb]; [|rewrite IH; reflexivity].
-  rewrite filter_none.
-  - rewrite IH. reflexivity.
-  - eapply Forall_impl; [|exact H]. cbv beta. intros a Ha. rewrite Ha. reflexivity.
+  rewrite (tun_step_silent _ _ _ _ _ H), IH. reflexivity.
+Qed.
+
+Lemma step_peers_silent_fault tbl mtu pkts q k :
+  Forall (fun p => route tbl p = None) pkts ->
+  forall up ps i, step_peers tbl mtu up (TunBatchFault pkts q k) i ps = (ps, []).
+Proof.
+  intros H up. induction ps as [|p t IH]; intros i; cbn [step_peers]; [reflexivity|].
+  cbn [peer_step]. destruct up; cbn [negb]; [|rewrite IH; reflexivity].
+  rewrite (tun_step_silent _ _ _ _ _ H), IH. rewrite firstn_nil.
+  destruct (q =? i); reflexivity.
 Qed.
 
 Lemma unroutable_silent : forall st pkts,
@@ -127,6 +142,14 @@ Lemma unroutable_silent : forall st pkts,
 Proof.
   intros st pkts H. unfold step. cbn [mtu_after].
   rewrite (step_peers_silent _ _ _ H). destruct st; reflexivity.
+Qed.
+
+Lemma unroutable_silent_fault : forall st pkts q k,
+  Forall (fun p => route (s_tbl st) p = None) pkts ->
+  step st (TunBatchFault pkts q k) = (st, []).
+Proof.
+  intros st pkts q k H. unfold step. cbn [mtu_after].
+  rewrite (step_peers_silent_fault _ _ _ q k H). destruct st; reflexivity.
 Qed.
 
 Lemma unroutable_silent_single : forall st p,
@@ -222,19 +245,49 @@ Proof.
       rewrite H. intros Hs. exists s'. auto.
 Qed.
 
+Lemma in_firstn {A} (l : list A) n x : In x (firstn n l) -> In x l.
+Proof.
+  revert n. induction l as [|a l IH]; intros [|n]; cbn [firstn In]; try contradiction.
+  intros [H|H]; [left; exact H|right; exact (IH _ H)].
+Qed.
+
+Lemma tun_step_data tbl mtu i p pkts p' os q ep rcv ctr pk m :
+  tun_step tbl mtu i p pkts = (p', os) -> In (OData q ep rcv ctr pk m) os ->
+  q = i /\ m = mtu /\
+  exists s, p_sess p' = Some s /\ ss_ridx s = rcv /\ ss_expired s = false /\
+            p_ep p' = Some ep /\ ctr < ss_ctr s.
+Proof.
+  unfold tun_step.
+  match goal with |- context [filter ?f pkts] => destruct (filter f pkts) as [|m0 mt] end.
+  - intros H; inversion H; subst. intros [].
+  - intros H Hin. destruct (send_staged_data _ _ _ _ _ _ _ _ _ _ _ H Hin) as (A & B & _ & C). auto.
+Qed.
+
+Lemma tun_step_sess tbl mtu i p pkts p' os s' :
+  tun_step tbl mtu i p pkts = (p', os) -> p_sess p' = Some s' ->
+  exists s, p_sess p = Some s /\ ss_ridx s = ss_ridx s'.
+Proof.
+  unfold tun_step.
+  match goal with |- context [filter ?f pkts] => destruct (filter f pkts) as [|m0 mt] end.
+  - intros H; inversion H; subst. intros Hs. exists s'. auto.
+  - intros H Hs. exact (send_staged_sess _ _ _ _ _ _ H Hs).
+Qed.
+
 Lemma peer_step_data tbl mtu up i p ev p' os q ep rcv ctr pk m :
   peer_step tbl mtu up i p ev = (p', os) -> In (OData q ep rcv ctr pk m) os ->
   q = i /\ m = mtu /\
   exists s, p_sess p' = Some s /\ ss_ridx s = rcv /\ ss_expired s = false /\
             p_ep p' = Some ep /\ ctr < ss_ctr s.
 Proof.
-  destruct ev as [pkts|mm|j ridx e|j ridx e|j e|j|j| |]; cbn [peer_step].
-  1-7: destruct up; cbn [negb]; [|intros H; inversion H; subst; intros []].
-  8: intros H; inversion H; subst; intros [].
-  8: destruct up; intros H; inversion H; subst; intros [].
-  - match goal with |- context [filter ?f pkts] => destruct (filter f pkts) as [|m0 mt] end.
-    + intros H; inversion H; subst. intros [].
-    + intros H Hin. destruct (send_staged_data _ _ _ _ _ _ _ _ _ _ _ H Hin) as (A & B & _ & C). auto.
+  destruct ev as [pkts|pkts fq fk|mm|j ridx e|j ridx e|j e|j|j| |]; cbn [peer_step].
+  1-8: destruct up; cbn [negb]; [|intros H; inversion H; subst; intros []].
+  9: intros H; inversion H; subst; intros [].
+  9: destruct up; intros H; inversion H; subst; intros [].
+  - apply tun_step_data.
+  - destruct (tun_step tbl mtu i p pkts) as [p1 o1] eqn:Ht.
+    intros H; inversion H; subst; clear H. intros Hin.
+    eapply tun_step_data; [exact Ht|].
+    destruct (fq =? i); [apply in_firstn in Hin|]; exact Hin.
   - intros H; inversion H; subst. intros [].
   - destruct (j =? i).
     + destruct (send_staged mtu i (set_sess p ridx e)) as [p1 o1] eqn:Hs.
@@ -255,14 +308,15 @@ Lemma peer_step_sess tbl mtu up i p ev p' os s' :
   (exists s, p_sess p = Some s /\ ss_ridx s = ss_ridx s') \/
   (exists ep, ev = RefHs i (ss_ridx s') ep \/ ev = AnswerHs i (ss_ridx s') ep).
 Proof.
-  destruct ev as [pkts|mm|j ridx e|j ridx e|j e|j|j| |]; cbn [peer_step].
-  1-7: destruct up; cbn [negb];
+  destruct ev as [pkts|pkts fq fk|mm|j ridx e|j ridx e|j e|j|j| |]; cbn [peer_step].
+  1-8: destruct up; cbn [negb];
          [|intros H; inversion H; subst; intros Hs; left; exists s'; auto].
-  8: intros H; inversion H; subst; cbn [p_sess]; discriminate.
-  8: destruct up; intros H; inversion H; subst; cbn [p_sess]; intros Hs; left; exists s'; auto.
-  - match goal with |- context [filter ?f pkts] => destruct (filter f pkts) as [|m0 mt] end.
-    + intros H; inversion H; subst. intros Hs. left. exists s'. auto.
-    + intros H Hs. left. exact (send_staged_sess _ _ _ _ _ _ H Hs).
+  9: intros H; inversion H; subst; cbn [p_sess]; discriminate.
+  9: destruct up; intros H; inversion H; subst; cbn [p_sess]; intros Hs; left; exists s'; auto.
+  - intros H Hs. left. exact (tun_step_sess _ _ _ _ _ _ _ _ H Hs).
+  - destruct (tun_step tbl mtu i p pkts) as [p1 o1] eqn:Ht.
+    intros H; inversion H; subst; clear H. intros Hs. left.
+    exact (tun_step_sess _ _ _ _ _ _ _ _ Ht Hs).
   - intros H; inversion H; subst. intros Hs. left. exists s'. auto.
   - destruct (N.eqb_spec j i) as [->|Hj].
     + destruct (send_staged mtu i (set_sess p ridx e)) as [p1 o1] eqn:Hss.
@@ -455,7 +509,7 @@ Definition data_of (o : out) : list (N * pkt) :=
 Definition sent (os : list (list out)) : list (N * pkt) := flat_map data_of (concat os).
 Definition routed_ev (tbl : list entry) (ev : event) : list (N * pkt) :=
   match ev with
-  | TunBatch pkts =>
+  | TunBatch pkts | TunBatchFault pkts _ _ =>
       flat_map (fun x => match route tbl x with Some j => [(j, x)] | None => [] end) pkts
   | _ => []
   end.
@@ -479,7 +533,8 @@ Fixpoint stg (i : N) (ps : list peer) : list (N * pkt) :=
 (* the packets of a batch that peer i stages *)
 Definition mine (tbl : list entry) (i : N) (ev : event) : list pkt :=
   match ev with
-  | TunBatch pkts => filter (fun x => match route tbl x with Some j => j =? i | None => false end) pkts
+  | TunBatch pkts | TunBatchFault pkts _ _ =>
+      filter (fun x => match route tbl x with Some j => j =? i | None => false end) pkts
   | _ => []
   end.
 
@@ -555,19 +610,43 @@ Proof.
   change (cnt (tag i (concat [])) x) with 0%nat. lia.
 Qed.
 
+Lemma tun_step_count tbl mtu i p pkts p' os x :
+  tun_step tbl mtu i p pkts = (p', os) ->
+  (cnt (flat_map data_of os) x + cnt (tag i (concat (p_staged p'))) x
+   <= cnt (tag i (concat (p_staged p))) x + cnt (tag i (mine tbl i (TunBatch pkts))) x)%nat.
+Proof.
+  unfold tun_step. cbn [mine].
+  match goal with |- context [filter ?f pkts] => destruct (filter f pkts) as [|m0 mt] end.
+  - intros H; inversion H; subst. apply triv_count.
+  - intros H. apply (send_staged_count _ _ _ _ _ x) in H. cbn [p_staged] in H.
+    pose proof (stage_count i (p_staged p) (m0 :: mt) x). lia.
+Qed.
+
+Lemma firstn_data_count n os x :
+  (cnt (flat_map data_of (firstn n os)) x <= cnt (flat_map data_of os) x)%nat.
+Proof.
+  revert n. induction os as [|o os IH]; intros [|n]; cbn [firstn flat_map]; try lia.
+  - change (cnt [] x) with 0%nat. lia.
+  - rewrite !count_occ_app. specialize (IH n). lia.
+Qed.
+
 Lemma peer_step_count tbl mtu up i p ev p' os x :
   peer_step tbl mtu up i p ev = (p', os) ->
   (cnt (flat_map data_of os) x + cnt (tag i (concat (p_staged p'))) x
    <= cnt (tag i (concat (p_staged p))) x + cnt (tag i (mine tbl i ev)) x)%nat.
 Proof.
-  destruct ev as [pkts|mm|j ridx e|j ridx e|j e|j|j| |]; cbn [peer_step mine].
-  1-7: destruct up; cbn [negb]; [|intros H; inversion H; subst; apply triv_count'].
-  8: intros H; inversion H; subst; cbn [p_staged]; apply flush_count.
-  8: destruct up; intros H; inversion H; subst; cbn [p_staged]; apply triv_count'.
-  - match goal with |- context [filter ?f pkts] => destruct (filter f pkts) as [|m0 mt] end.
-    + intros H; inversion H; subst. cbn. lia.
-    + intros H. apply (send_staged_count _ _ _ _ _ x) in H. cbn [p_staged] in H.
-      pose proof (stage_count i (p_staged p) (m0 :: mt) x). lia.
+  destruct ev as [pkts|pkts fq fk|mm|j ridx e|j ridx e|j e|j|j| |]; cbn [peer_step].
+  1-8: destruct up; cbn [negb]; [|intros H; inversion H; subst; apply triv_count'].
+  9: intros H; inversion H; subst; cbn [p_staged]; apply flush_count.
+  9: destruct up; intros H; inversion H; subst; cbn [p_staged]; apply triv_count'.
+  3-8: cbn [mine].
+  - apply tun_step_count.
+  - destruct (tun_step tbl mtu i p pkts) as [p1 o1] eqn:Ht.
+    intros H; inversion H; subst; clear H.
+    apply (tun_step_count _ _ _ _ _ _ _ x) in Ht.
+    change (mine tbl i (TunBatchFault pkts fq fk)) with (mine tbl i (TunBatch pkts)).
+    pose proof (firstn_data_count (N.to_nat fk) o1 x).
+    destruct (fq =? i); lia.
   - intros H; inversion H; subst. cbn. lia.
   - destruct (j =? i).
     + destruct (send_staged mtu i (set_sess p ridx e)) as [p1 o1] eqn:Hs.
@@ -588,11 +667,10 @@ Proof.
   - destruct (j =? i); intros H; inversion H; subst; cbn [p_staged]; apply triv_count.
 Qed.
 
-Lemma mine_routed tbl i ev x :
-  (cnt (tag i (mine tbl i ev)) x <= if N.eqb (fst x) i then cnt (routed_ev tbl ev) x else 0)%nat.
+Lemma mine_routed_pkts tbl i pkts x :
+  (cnt (tag i (mine tbl i (TunBatch pkts))) x <= cnt (routed_ev tbl (TunBatch pkts)) x)%nat.
 Proof.
-  destruct (N.eqb_spec (fst x) i) as [E|E]; [|rewrite tag_other by exact E; lia].
-  destruct ev as [pkts| | | | | | | |]; cbn [mine routed_ev tag flat_map count_occ]; try lia.
+  cbn [mine routed_ev].
   induction pkts as [|a t IH]; cbn [filter flat_map]; [cbn; lia|].
   destruct (route tbl a) as [j|]; [|exact IH].
   destruct (N.eqb_spec j i) as [->|Hj].
@@ -600,6 +678,14 @@ Proof.
     + cbn [app]. etransitivity; [exact IH|]. apply cnt_cons_le.
     + cbn [app]. apply cnt_cons_mono. exact IH.
   - cbn [app]. etransitivity; [exact IH|]. apply cnt_cons_le.
+Qed.
+
+Lemma mine_routed tbl i ev x :
+  (cnt (tag i (mine tbl i ev)) x <= if N.eqb (fst x) i then cnt (routed_ev tbl ev) x else 0)%nat.
+Proof.
+  destruct (N.eqb_spec (fst x) i) as [E|E]; [|rewrite tag_other by exact E; lia].
+  destruct ev as [pkts|pkts fq fk| | | | | | | |];
+    try (cbn [mine tag flat_map count_occ]; lia); apply mine_routed_pkts.
 Qed.
 
 Lemma step_peers_count tbl mtu up ev x : forall ps i ps' os,
@@ -658,7 +744,8 @@ Theorem routed_to_lpm_owner : forall st evs p ep rcv ctr pk mtu, clean st ->
   In (OData p ep rcv ctr pk mtu) (concat (outs step st evs)) ->
   pk = [] \/
   (route (s_tbl st) pk = Some p /\
-   (exists batch, In (TunBatch batch) evs /\ In pk batch) /\
+   (exists batch, (In (TunBatch batch) evs \/ exists q k, In (TunBatchFault batch q k) evs) /\
+                  In pk batch) /\
    exists f, classify pk = Some f /\ lpm_spec (s_tbl st) f (be_val (dst_of f pk)) (Some p)).
 Proof.
   intros st evs p ep rcv ctr pk mtu Hc Hin.
@@ -669,7 +756,11 @@ Proof.
   pose proof (each_tun_packet_at_most_once st evs (p, b :: l) Hc) as Hle.
   assert (Hr : In (p, b :: l) (routed (s_tbl st) evs)) by (apply (count_occ_In pkt_eq_dec); lia).
   unfold routed in Hr. apply in_flat_map in Hr. destruct Hr as (ev & Hev & Hr).
-  destruct ev as [pkts| | | | | | | |]; cbn [routed_ev] in Hr; try (destruct Hr; fail).
+  assert (Hb : exists pkts, (In (TunBatch pkts) evs \/ exists q k, In (TunBatchFault pkts q k) evs) /\
+                           In (p, b :: l) (routed_ev (s_tbl st) (TunBatch pkts))).
+  { destruct ev as [pkts|pkts fq fk| | | | | | | |]; cbn [routed_ev] in Hr; try (destruct Hr; fail);
+      exists pkts; (split; [|exact Hr]); [left; exact Hev|right; exists fq, fk; exact Hev]. }
+  clear ev Hev Hr. destruct Hb as (pkts & Hev & Hr). cbn [routed_ev] in Hr.
   apply in_flat_map in Hr. destruct Hr as (y & Hy & Hr).
   destruct (route (s_tbl st) y) as [j|] eqn:Hroute; [|destruct Hr].
   destruct Hr as [Hr|[]]. inversion Hr; subst j y; clear Hr.
@@ -691,6 +782,20 @@ Theorem down_drops : forall st pkts, s_up st = false -> step st (TunBatch pkts) 
 Proof.
   intros [tbl mtu up ps] pkts H. cbn [s_up] in H. subst up. unfold step.
   cbn [s_tbl s_mtu s_up s_peers mtu_after]. rewrite step_peers_down_batch. reflexivity.
+Qed.
+
+Lemma step_peers_down_fault tbl mtu pkts q k : forall ps i,
+  step_peers tbl mtu false (TunBatchFault pkts q k) i ps = (ps, []).
+Proof.
+  induction ps as [|p t IH]; intros i; cbn [step_peers]; [reflexivity|].
+  cbn [peer_step negb]. rewrite IH. reflexivity.
+Qed.
+
+Theorem down_drops_fault : forall st pkts q k,
+  s_up st = false -> step st (TunBatchFault pkts q k) = (st, []).
+Proof.
+  intros [tbl mtu up ps] pkts q k H. cbn [s_up] in H. subst up. unfold step.
+  cbn [s_tbl s_mtu s_up s_peers mtu_after]. rewrite step_peers_down_fault. reflexivity.
 Qed.
 
 Lemma step_peers_Down tbl mtu up : forall ps i ps' os,
@@ -735,4 +840,136 @@ Proof.
   destruct (step_peers (s_tbl st) (mtu_after (s_mtu st) Up) (s_up st) Up 0 (s_peers st))
     as [ps o] eqn:Hsp.
   cbn [fst snd s_up]. split; [|reflexivity]. exact (step_peers_Up _ _ _ _ _ _ _ Hsp).
+Qed.
+
+(* ------------------------------------------------------------ bind.Send errors *)
+
+Definition out_peer (m : out) : N :=
+  match m with OInit p _ => p | OResp p _ _ => p | OData p _ _ _ _ _ => p end.
+
+Lemma number_out_peer i ep rcv c mtu l :
+  Forall (fun x => out_peer x = i) (number i ep rcv c mtu l).
+Proof.
+  revert c. induction l as [|x t IH]; intros c; cbn [number]; constructor; [reflexivity|apply IH].
+Qed.
+
+Lemma send_staged_out_peer mtu i p p' o :
+  send_staged mtu i p = (p', o) -> Forall (fun x => out_peer x = i) o.
+Proof.
+  unfold send_staged. destruct (p_staged p) as [|c0 q0].
+  - intros H; inversion H; subst. constructor.
+  - destruct (usable p) as [s|].
+    + intros H; inversion H; subst; clear H. destruct (p_ep p); [apply number_out_peer|constructor].
+    + intros H. apply initiate_no_data in H. destruct H as (_ & _ & H).
+      apply Forall_forall. intros x Hx. destruct (H x Hx) as [e ->]. reflexivity.
+Qed.
+
+Lemma tun_step_out_peer tbl mtu i p pkts p' o :
+  tun_step tbl mtu i p pkts = (p', o) -> Forall (fun x => out_peer x = i) o.
+Proof.
+  unfold tun_step.
+  match goal with |- context [filter ?f pkts] => destruct (filter f pkts) as [|m0 mt] end.
+  - intros H; inversion H; subst. constructor.
+  - apply send_staged_out_peer.
+Qed.
+
+Lemma step_peers_tun_out_peer tbl mtu up pkts : forall ps j ps' os,
+  step_peers tbl mtu up (TunBatch pkts) j ps = (ps', os) -> Forall (fun x => j <= out_peer x) os.
+Proof.
+  induction ps as [|p t IH]; intros j ps' os; cbn [step_peers].
+  - intros H; inversion H; subst. constructor.
+  - destruct (peer_step tbl mtu up j p (TunBatch pkts)) as [p1 o1] eqn:Hp.
+    destruct (step_peers tbl mtu up (TunBatch pkts) (j + 1) t) as [t1 os1] eqn:Ht.
+    intros H; inversion H; subst; clear H. apply Forall_app. split.
+    + cbn [peer_step] in Hp. destruct up; cbn [negb] in Hp.
+      * apply tun_step_out_peer in Hp. eapply Forall_impl; [|exact Hp]. cbv beta. intros a Ha. lia.
+      * inversion Hp; subst. constructor.
+    + apply IH in Ht. eapply Forall_impl; [|exact Ht]. cbv beta. intros a Ha. lia.
+Qed.
+
+Lemma filter_all {A} (f : A -> bool) l : Forall (fun x => f x = true) l -> filter f l = l.
+Proof.
+  induction 1 as [|x l Hx _ IH]; cbn [filter]; [reflexivity|]. rewrite Hx, IH. reflexivity.
+Qed.
+
+Lemma filter_peer_same i o : Forall (fun x => out_peer x = i) o ->
+  filter (fun x => out_peer x =? i) o = o.
+Proof.
+  intros H. apply filter_all. eapply Forall_impl; [|exact H]. cbv beta.
+  intros a Ha. apply N.eqb_eq. exact Ha.
+Qed.
+
+Lemma filter_peer_other i j o : i <> j -> Forall (fun x => out_peer x = j) o ->
+  filter (fun x => out_peer x =? i) o = [].
+Proof.
+  intros Hij H. apply filter_none. eapply Forall_impl; [|exact H]. cbv beta.
+  intros a Ha. apply N.eqb_neq. congruence.
+Qed.
+
+Lemma filter_peer_above i j o : i < j -> Forall (fun x => j <= out_peer x) o ->
+  filter (fun x => out_peer x =? i) o = [].
+Proof.
+  intros Hij H. apply filter_none. eapply Forall_impl; [|exact H]. cbv beta.
+  intros a Ha. apply N.eqb_neq. lia.
+Qed.
+
+Lemma Forall_firstn {A} (P : A -> Prop) n l : Forall P l -> Forall P (firstn n l).
+Proof.
+  intros H. apply Forall_forall. intros x Hx. apply in_firstn in Hx.
+  rewrite Forall_forall in H. apply H. exact Hx.
+Qed.
+
+Lemma step_peers_fault tbl mtu up pkts q k : forall ps j ps1 o1 ps2 o2,
+  step_peers tbl mtu up (TunBatch pkts) j ps = (ps1, o1) ->
+  step_peers tbl mtu up (TunBatchFault pkts q k) j ps = (ps2, o2) ->
+  ps2 = ps1 /\
+  forall i, filter (fun x => out_peer x =? i) o2 =
+            if i =? q then firstn (N.to_nat k) (filter (fun x => out_peer x =? i) o1)
+            else filter (fun x => out_peer x =? i) o1.
+Proof.
+  induction ps as [|p t IH]; intros j ps1 o1 ps2 o2; cbn [step_peers].
+  - intros H1 H2; inversion H1; inversion H2; subst. split; [reflexivity|].
+    intros i. cbn [filter]. rewrite firstn_nil. destruct (i =? q); reflexivity.
+  - destruct (step_peers tbl mtu up (TunBatch pkts) (j + 1) t) as [t1 os1] eqn:Ht1.
+    destruct (step_peers tbl mtu up (TunBatchFault pkts q k) (j + 1) t) as [t2 os2] eqn:Ht2.
+    pose proof (step_peers_tun_out_peer _ _ _ _ _ _ _ _ Ht1) as Habove.
+    destruct (IH _ _ _ _ _ Ht1 Ht2) as [-> Hf]. clear IH.
+    cbn [peer_step]. destruct up; cbn [negb].
+    + destruct (tun_step tbl mtu j p pkts) as [p' o] eqn:Hp.
+      pose proof (tun_step_out_peer _ _ _ _ _ _ _ Hp) as Ho.
+      intros H1 H2; inversion H1; inversion H2; subst; clear H1 H2.
+      split; [reflexivity|]. intros i. rewrite !filter_app. specialize (Hf i).
+      destruct (N.eqb_spec i q) as [E|Hiq]; [subst i|].
+      * destruct (N.eqb_spec q j) as [E|Hqj]; [subst q|].
+        -- rewrite (filter_peer_same j) by (apply Forall_firstn; exact Ho).
+           rewrite (filter_peer_same j o) by exact Ho.
+           rewrite Hf. rewrite (filter_peer_above j (j + 1) os1) by (try lia; exact Habove).
+           rewrite firstn_nil, !app_nil_r. reflexivity.
+        -- rewrite (filter_peer_other q j o) by assumption. cbn [app]. exact Hf.
+      * destruct (N.eqb_spec q j) as [E|Hqj]; [subst q|].
+        -- rewrite (filter_peer_other i j) by (try assumption; apply Forall_firstn; exact Ho).
+           rewrite (filter_peer_other i j o) by assumption. cbn [app]. exact Hf.
+        -- rewrite Hf. reflexivity.
+    + intros H1 H2; inversion H1; inversion H2; subst; clear H1 H2.
+      split; [reflexivity|]. intros i. cbn [app]. exact (Hf i).
+Qed.
+
+(* A send error toward peer q: the state evolves as without the error, every
+   other peer's datagrams are unchanged, and of peer q's datagrams exactly the
+   first k are transmitted. *)
+Theorem fault_transmits_prefix : forall st pkts q k,
+  let '(st1, o1) := step st (TunBatch pkts) in
+  let '(st2, o2) := step st (TunBatchFault pkts q k) in
+  st2 = st1 /\
+  (forall i, filter (fun x => out_peer x =? i) o2 =
+             if i =? q then firstn (N.to_nat k) (filter (fun x => out_peer x =? i) o1)
+             else filter (fun x => out_peer x =? i) o1).
+Proof.
+  intros st pkts q k. unfold step. cbn [mtu_after].
+  destruct (step_peers (s_tbl st) (s_mtu st) (s_up st) (TunBatch pkts) 0 (s_peers st))
+    as [ps1 o1] eqn:H1.
+  destruct (step_peers (s_tbl st) (s_mtu st) (s_up st) (TunBatchFault pkts q k) 0 (s_peers st))
+    as [ps2 o2] eqn:H2.
+  destruct (step_peers_fault _ _ _ _ _ _ _ _ _ _ _ _ H1 H2) as [-> Hf].
+  split; [reflexivity|exact Hf].
 Qed.
